@@ -10,6 +10,7 @@ RULE = ("object-API operation sequences on live handles (push, append, cons, car
         "mutating operations, random ones up to length 60, every list handle re-read after every step (so a mutation seen "
         "through another handle is observed); conversions of every value kind through as_*/try_*/TryFrom/Option<_>/bool "
         "and the type predicates; typed iterators; destruct_bind! patterns on lists of every length, dotted lists and atoms; "
+        "the alist / plist / list helpers (alist_from, plist_from, assoc, alist_get with and without default, plist_get, length, nth, nthcdr, last) on association lists with repeated keys, nil values, equal-but-not-eq keys and non-pair elements; "
         "symbol-API sequences (set, set_scope, unset, get, boundp) on two names and a keyword, exhaustive up to length 4 / 5, "
         "compared with the heap / stack model; host functions of every parameter-type combination called with argument "
         "lists too short / exact / too long / of the wrong type; non-trivial = distinct operation sequences containing "
@@ -77,6 +78,42 @@ def generate(tier, seed):
             lines += shows(LISTS + [7])
         lines += shows(range(9, min(created, 20)))
         nt += 1
+    # the alist / plist / list helpers of src/lists.rs through the object API
+    EXTRA = ["API new sym a", "API new sym b", "API new str s", "API new int 1", "API list 1 2", "API new float 3ff0000000000000", "API new sym :k"]
+    # handles 9 a, 10 b, 11 "s" (equal, not eq, to 5), 12 1 (equal to handle 1), 13 (1 2) (equal to 3), 14 1.0, 15 :k
+    keys = [9, 10, 5, 11, 1, 12, 3, 13, 0, 6, 14, 15, 4]
+    valsh = [0, 4, 3, 8, 10, 7, 5]
+    def helper_case(pairs, elems_extra, kind):
+        ls = ["NEW"] + SETUP + EXTRA
+        nh = 16
+        if kind == "from":
+            ls.append("API alist_from " + " ".join("%d %d" % kv for kv in pairs)); al = nh; nh += 1
+            ls.append("API plist_from " + " ".join("%d %d" % kv for kv in pairs)); pl = nh; nh += 1
+        else:
+            cells = []
+            for k, v in pairs:
+                ls.append("API cons %d %d" % (k, v)); cells.append(nh); nh += 1
+            mix = cells + elems_extra
+            ls.append(("API list " + " ".join(map(str, mix))).strip()); al = nh; nh += 1
+            ls.append(("API list " + " ".join("%d %d" % kv for kv in pairs)).strip() + ("" if not elems_extra else " %d" % elems_extra[0])); pl = nh; nh += 1
+        ls += ["API show %d" % al, "API show %d" % pl]
+        for k in keys:
+            ls += ["API assoc %d %d" % (k, al), "API showlast", "API alist_get %d %d" % (k, al), "API showlast",
+                   "API alist_get %d %d 4" % (k, al), "API showlast", "API plist_get %d %d" % (pl, k), "API showlast"]
+        for h in (al, pl, 7, 4, 0):
+            ls += ["API llen %d" % h, "API llast %d none" % h, "API showlast"]
+            for n in (-1, 0, 1, 2, 3, 7):
+                ls += ["API lnth %d %d" % (n, h), "API showlast", "API lnthcdr %d %d" % (n, h), "API showlast", "API llast %d %d" % (h, n), "API showlast"]
+        ls += ["API show %d" % al, "API show %d" % pl]
+        return ls
+    hc = 0
+    for n in range(0, 4):
+        for _ in range(1 if n == 0 else (60 if tier == "quick" else 1500)):
+            pairs = [(rng.choice(keys), rng.choice(valsh)) for _ in range(n)]
+            if rng.random() < 0.5 and n >= 2: pairs[-1] = (pairs[0][0], rng.choice(valsh))      # a repeated key: the first one wins
+            kind = rng.choice(["from", "built"])
+            extra = [rng.choice([4, 9, 0, 5])] if (kind == "built" and rng.random() < 0.5) else []
+            lines += helper_case(pairs, extra, kind); hc += 1
     # conversions
     vals = ["new int 5", "new int -3", "new int 9223372036854775807", "new float 4004000000000000", "new float 3ff0000000000000",
             "new float c00c000000000000", "new float 7ff0000000000000", "new str abc", "new str ", "new str é\\nq", "new bool 1", "new bool 0",
@@ -128,7 +165,7 @@ def generate(tier, seed):
             for t in (itertools.product(args, repeat=n) if n <= 2 else [tuple(rng.choice(args) for _ in range(n)) for _ in range(25)]):
                 call = "(%s %s)" % (f, " ".join("(progn (tick %d) %s)" % (i + 1, a) for i, a in enumerate(t)))
                 lines += ["NEW", "EVAL " + call, "TICKS"]
-    return {"lines": lines, "nontrivial": nt, "distribution": {"object_sequences": len(seqs), "symbol_sequences": len(sseqs)}}
+    return {"lines": lines, "nontrivial": nt, "distribution": {"object_sequences": len(seqs), "symbol_sequences": len(sseqs), "list_helper_cases": hc}}
 
 def fix_symbol_shows(lines):
     # `API sym get` answers `H k` with the model and the implementation numbering handles identically as long as both
